@@ -58,19 +58,24 @@ SPEC = dict(
              "substitution by another character of the same alphabet in ANY friendly text is rejected - by xor-linearity of CRC-16 "
              "(derived from the C18 step lemmas, over the crc16 code translated from crc.py on every run) the question reduces to "
              "the 48 x 63 error patterns, whose syndromes are all shown non-zero by kernel evaluation. "
-             "The WHOLE methods Address.to_str (raw form and the 8 friendly variants: tag, signed workchain byte, hash, CRC16, both base64 alphabets), "
-             "is_b64 (base64 decode, tag/flag decoding, signed workchain byte, hash slice, CRC comparison), __eq__ and __hash__ are re-translated from "
-             "address.py on every run (Generated/AddrFull.lean) and proved equal to the hand model for ALL addresses, flags and texts "
-             "(c13_src_fn_methods); c13_src_friendly_roundtrip, c13_src_substitution_rejected and c13_src_eq_hash restate the property for the "
-             "regenerated methods themselves. Address.__init__ (isinstance dispatch) and is_hex stay hand model + correspondence.",
+             "The WHOLE class is re-translated from address.py on every run (Generated/AddrFull.lean): Address.to_str (raw form and the 8 friendly "
+             "variants: tag, signed workchain byte, hash, CRC16, both base64 alphabets), is_b64 (base64 decode, tag/flag decoding, signed workchain "
+             "byte, hash slice, CRC comparison), is_hex (split(':') into exactly two parts, int(hash,16), int(wc), bytes.fromhex), the constructor "
+             "__init__ for a str / (int, bytes) tuple / Address argument (flags reset, dispatch is_hex -> is_b64 -> raise), __eq__ and __hash__; all "
+             "are proved equal to the hand model for ALL addresses, flags and texts (c13_src_fn_methods, c13_src_fn_init), and the property is "
+             "restated for the regenerated code itself: c13_src_friendly_roundtrip (regenerated Address(regenerated to_str(..)) = the same workchain, "
+             "hash and requested flags, all 8 variants), c13_src_raw_roundtrip / c13_src_raw_exists, c13_src_substitution_rejected (every same-alphabet "
+             "substitution makes the regenerated constructor raise), c13_src_rerender, c13_src_eq_hash, c13_src_copy_eq.",
         level_note='Trusted: Lean kernel (propext, Classical.choice, Quot.sound only); the translator harness/translate/pyobj.py + addrfull.py for '
-                   'to_str / is_b64 / __eq__ / __hash__ (reading: is_b64 returning False and raising are one outcome; lean/TonVerif/PyStr.lean for the '
-                   'signed byte conversions; validated against the running class on ~900 renderings / texts / pairs whenever source or translator '
-                   'change) - these methods of Model/Address.lean are proved equal to the regenerated ones; still hand-written and trusted: '
-                   'Model/Address.lean parse / isHex (Address.__init__, is_hex) and the built-in models used by both sides - '
-                   'the hand-written models Model/Address.lean and '
-                   'Model/Base64.lean (str.split, int(str[,16]), bytes.fromhex, str(int), bytes.hex, int.to_bytes/from_bytes, base64/'
-                   'binascii are modelled by hand for ASCII text) - tied to the library only by sampled differential correspondence '
+                   '__init__ / is_hex / is_b64 / to_str / __eq__ / __hash__ (declared reading: the constructor argument is a str, an (int, bytes) tuple or an '
+                   'Address - isinstance is resolved by that declared type; is_b64 returning False and raising are one outcome, accepted only because '
+                   '__init__ raises after it; inside is_hex only ValueError can be raised - the translator refuses any other raising operation there - and '
+                   'after its False result the attributes it touched are unreadable; self.anycast is not part of the text forms; lean/TonVerif/PyStr.lean '
+                   'for the signed byte conversions; validated against the running class on ~1400 renderings / texts / constructor calls / pairs whenever '
+                   'source or translator change) - all methods of Model/Address.lean are proved equal to the regenerated ones; still hand-written and '
+                   'trusted are the BUILT-IN models used by both sides of every equation: '
+                   'Model/Base64.lean and the text built-ins of Model/Address.lean (str.split, int(str[,16]), bytes.fromhex, str(int), bytes.hex, '
+                   'base64/binascii are modelled by hand for ASCII text) - tied to the library only by sampled differential correspondence '
                    '(~150k model requests quick, ~6M thorough: every text produced, every parse result, all 3024 substitutions of 40/2000 '
                    'addresses, lenient and malformed inputs); crc16 itself is the C18 translation of crc.py (re-proved each run). The tag '
                    'arithmetic is regenerated from address.py on every run (Generated/AddrTags.lean): the statements of to_str computing the tag '
@@ -101,7 +106,7 @@ def _translators():
     from ..translate import addrfull
     return [('crc.py->Generated/Crc.lean', tr.regenerate),
             ('address.py tag arithmetic of to_str / is_b64->Generated/AddrTags.lean', arith2.regenerator('AddrTags')),
-            ('address.py Address.to_str / is_b64 / __eq__ / __hash__ (whole methods)->Generated/AddrFull.lean', addrfull.regenerate)]
+            ('address.py Address.__init__ / is_hex / is_b64 / to_str / __eq__ / __hash__ (whole methods)->Generated/AddrFull.lean', addrfull.regenerate)]
 
 
 SPEC['translators'] = _translators()
@@ -398,6 +403,19 @@ def src_search(ctx):
                 check_subst(ctx, 0, rng.randbytes(32), True, True, False)
                 check_subst(ctx, -1, rng.randbytes(32), False, False, True)
         elif p[0] == 'eqh':
+            check_addr(ctx, int(p[1]), unh(p[2]), 'src-fn')
+        elif p[0] in ('hexs', 'ini'):
+            # the constructor / is_hex differ from the hand model on this text: the text itself, then the round trips (raw form of
+            # boundary workchains and hashes, friendly variants) - the property is "every rendered text parses back"
+            check_text(ctx, unh(p[1]).decode('latin-1'), 'src-fn')
+            if not getattr(ctx, '_c13_src_init', False):
+                ctx._c13_src_init = True
+                for wc in (0, -1, 127, -128, 5):
+                    for hp in (bytes(32), b'\xff' * 32, rng.randbytes(32)):
+                        check_addr(ctx, wc, hp, 'src-fn')
+                for wc, wcs in big_wcs()[:8]:
+                    check_addr(ctx, wc, rng.randbytes(32), 'src-fn', wcs)
+        elif p[0] in ('itu', 'iad'):
             check_addr(ctx, int(p[1]), unh(p[2]), 'src-fn')
     if len(ctx.failures) > n0:
         return True
